@@ -89,6 +89,20 @@ pub broadcast proof fn lemma_dot_step_b(index: Seq<usize>, strides: Seq<usize>, 
     assert(0 <= i * st) by (nonlinear_arith) requires 0 <= i, st >= 0;
 }
 
+/// `is_valid_permutation` uses iterator adaptors (outside Verus' subset). Its contract is ASSUMED
+/// here: true exactly for permutations of 0..ndim; in particular every entry is < ndim. It is
+/// checked by the bounded Kani harness U-layout:NdLayout::permuted+transposed.model.
+pub open spec fn valid_perm(ndim: int, p: Seq<usize>) -> bool {
+    &&& p.len() == ndim
+    &&& forall|i: int| 0 <= i < ndim ==> (#[trigger] p[i]) < ndim
+    &&& forall|i: int, j: int| 0 <= i < j < ndim ==> p[i] != p[j]
+}
+
+#[verifier::external_body]
+pub fn is_valid_permutation(ndim: usize, permutation: &[usize]) -> (r: bool)
+    ensures r == valid_perm(ndim as int, permutation@)
+{ unimplemented!() }
+
 // ---------------------------------------------------------------- code under contract
 pub mod code {
 use super::*;
@@ -107,6 +121,13 @@ impl<const N: usize> NdLayout<N> {
     //@| invariant
     //@|     offset as int == dot(index@, self.strides@, i as int), 0 <= i <= N,
     //@|     dot(index@, self.strides@, N as int) <= usize::MAX,
+
+    //@extract kind=fn file=rten-tensor/src/layout.rs within="impl<const N: usize> MutLayout for NdLayout<N>" name=permuted
+    //@| requires valid_perm(N as int, dims@)   // documented: panics on an invalid permutation
+    //@| ensures forall|i: int| 0 <= i < N ==> r.shape@[i] == self.shape@[dims@[i] as int] && r.strides@[i] == self.strides@[dims@[i] as int], // @ob:permuted.gathers_dims
+    //@loop 0
+    //@| invariant 0 <= i <= N, forall|k: int| 0 <= k < N ==> (#[trigger] dims@[k]) < N,
+    //@|     forall|k: int| 0 <= k < i ==> shape@[k] == self.shape@[dims@[k] as int] && strides@[k] == self.strides@[dims@[k] as int],
 
     //@extract kind=fn file=rten-tensor/src/layout.rs within="impl<const N: usize> Layout for NdLayout<N>" name=offset
     //@| requires max_dot(self.shape@, self.strides@, N as int) <= usize::MAX   // layout invariant: max offset representable
